@@ -9,6 +9,11 @@ Streams (one op per line, a metadata value is 17 tokens in declaration order, se
                              did, computed here by calling pycryptodome directly: V (ValueError) | none | x<bytes>
   rt <key> <k> M17           decrypt_metadata(encrypt_metadata(m, pub), priv)
   derive x<r> <iv|none> x<sha256(r)>   derive_aes_hmac_keys, BeaconKeys.from_aes_rand, BeaconKeys.from_beacon_metadata
+  hist step | step | …       2–9 calls executed in ONE impl() invocation (same process, same objects): any of the ops above
+                             plus `new M17` / `set <field> <v>` / `show` / `eo <key> <k>` / `ro <key> <k>` which create, mutate,
+                             print and encrypt (round-trip) ONE caller-side BeaconMetadata object.  The library is modelled
+                             as stateless, so every step must give the single-call answer (theorem history_independent):
+                             caches / fast paths / behaviour depending on an earlier call or failure show up here.
 
 The oracle is an independent struct.pack/unpack based encoder/decoder of the metadata layout written below
 (format string typed by hand, not taken from c_c2.py) plus hashlib called directly.
@@ -41,6 +46,8 @@ STREAMS = {
     "dec": {"relevant": True, "desc": "decrypt_metadata on valid / crafted / wrong-key / random blobs"},
     "rt": {"relevant": True, "desc": "decrypt_metadata(encrypt_metadata(m))"},
     "derive": {"relevant": True, "desc": "derive_aes_hmac_keys, BeaconKeys.from_aes_rand / from_beacon_metadata"},
+    "hist": {"relevant": True, "desc": "call histories in one process: same blob under different keys, corrupted copies, the same "
+                                       "metadata object encrypted repeatedly and after mutation, repeated key derivations"},
 }
 TRUSTED = [
     "tools/harness/c06.py generators, adapters and struct-based oracle; tools/gen/c2struct.py; line protocol parsing in "
@@ -59,7 +66,7 @@ ASSUMPTIONS = [
     "the `sentinel None returned` branch of decrypt_metadata cannot be triggered with pycryptodome 3.23 (it returns b'' on "
     "padding failures); it is covered by the theorem undecryptable_rejected only",
 ]
-RULE = ("per-field boundary values (0,1,max,max+1), every info length 0..limit+2 for RSA-1024/2048, crafted plaintexts, wrong-key and "
+RULE = ("call histories (2-9 steps in one process) + per-field boundary values (0,1,max,max+1), every info length 0..limit+2 for RSA-1024/2048, crafted plaintexts, wrong-key and "
         "random blobs + seeded random cases; distinct = hash of input line; non-trivial = not the all-zero metadata / empty input "
         "(rejections count: they are the subject of the property)")
 
@@ -397,8 +404,8 @@ def gen(tier, rng, shard, nshards):
             for _ in range(vol(24, 300)):
                 f = rfields(rng, rng.randrange(0, limit + 1))
                 f["size"] = 51 + len(f["info"])
-                blob = direct_encrypt(wrong, own_encode(f), rng)
-                yield dec_line(blob)
+                # (the same blob under two keys in sequence is the business of the `hist` stream, whose lines replay on their own)
+                yield dec_line(direct_encrypt(wrong, own_encode(f), rng))
                 yield dec_line(direct_encrypt(right, own_encode(f), rng), wrong)
         # special integers and wrong lengths
         specials = [bytes(kb), bytes(kb - 1) + b"\x01", b"\xff" * kb, long_to_bytes(kn, kb), long_to_bytes(kn - 1, kb),
@@ -468,6 +475,134 @@ def gen(tier, rng, shard, nshards):
         iv = "none" if rng.random() < 0.5 else C.hx(C.rbytes(rng, rng.choice([16, 16, 16, 0, 8, 32])))
         yield "derive", f"derive {C.hx(r)} {iv} {C.hx(hashlib.sha256(r).digest())}"
 
+    # ------------------------------------------------------------------ hist
+    # committed keys: every shard builds the same list (own PRNG), sharded by position; seed key: per shard
+    hrng = random.Random(f"C06-hist-{seed}")
+    for i, steps in enumerate(gen_hist(tier, hrng, [("k1024a", "k1024b"), ("k2048a", "k2048b")], ksize)):
+        if i % nshards == shard:
+            yield "hist", "hist " + " | ".join(steps)
+    for steps in gen_hist("quick", rng, [(gkey, "k1024a")], ksize)[: (40 if thorough else 10)]:
+        yield "hist", "hist " + " | ".join(steps)
+
+
+def _dec_step(kid, blob):
+    return f"dec {kid} {C.hx(blob)} {direct_decrypt(kid, blob)}"
+
+
+def _derive_step(r, iv=None):
+    return f"derive {C.hx(r)} {'none' if iv is None else C.hx(iv)} {C.hx(hashlib.sha256(r).digest())}"
+
+
+def _valid_fields(rng, il):
+    f = rfields(rng, il)
+    f["size"] = 51 + il
+    return f
+
+
+TRICKY_SEEDS = [b"0123456789abcdef", b"0123456789ABCDEF", b" 123456789abcdef", b"123456789abcdef ", b"123456789abcdef", b"\t\n\r 0aA9fF \t\n\r x",
+                b"0" * 16, b"0" * 15, b"0" * 17, b"\x00" * 16, b"\x00" * 15, b"\x00" * 32, b"A" * 16, b"a" * 16, b"\xff" * 16, b"\xff" * 15 + b"\xfe",
+                b"abc\x00", b"abc", b"abc\x00\x00", b"deadbeefdeadbeef", b"DEADBEEFDEADBEEF", bytes.fromhex("deadbeefdeadbeef"), b" " * 16, b"\n" * 16,
+                b"0x0123456789abcd", b"1" + b"0" * 15, b"0" * 15 + b"1", b""]
+
+
+def gen_hist(tier, rng, keys_right, ksize):
+    """Histories (lists of step strings); the caller shards them."""
+    thorough = tier == "thorough"
+    out = []
+    # ---- A: the same blob under different keys / corrupted copies / other blobs, in many orders
+    for right, wrong in keys_right:
+        kb = ksize[right]
+        limit = kb - 11 - HEADER
+        same = ksize[wrong] == kb
+        for rep in range(12 if thorough else 3):
+            il = rng.choice([0, 5, limit, rng.randrange(0, limit + 1)])
+            f = _valid_fields(rng, il)
+            pt = own_encode(f)
+            blob = direct_encrypt(right, pt, rng)
+            corrupt = bytearray(blob)
+            corrupt[rng.randrange(kb)] ^= 1 << rng.randrange(8)
+            corrupt = bytes(corrupt)
+            other = direct_encrypt(right, own_encode(_valid_fields(rng, rng.randrange(0, limit + 1))), rng)
+            badmagic = direct_encrypt(right, struct.pack(">I", 0xBEEE) + pt[4:], rng)
+            short = direct_encrypt(right, pt[: rng.choice([0, 1, 8, 58])], rng)
+            A, B = _dec_step(right, blob), _dec_step(wrong, blob)
+            pool = [A, B, _dec_step(right, corrupt), _dec_step(wrong, corrupt), _dec_step(right, other), _dec_step(right, badmagic),
+                    _dec_step(right, short), _dec_step(wrong, short), _dec_step(right, blob[:-1]), _dec_step(right, blob + b"\x00"),
+                    "parse " + C.hx(pt), "parse " + C.hx(pt[:-1] if il else pt[:58]), "parse " + C.hx(pt + b"zz")]
+            if not same:
+                pool.append(_dec_step(wrong, direct_encrypt(wrong, pt, rng)))
+            fixed = [[A, B], [B, A], [A, B, A], [A, A, B, B], [A, _dec_step(right, corrupt), A], [_dec_step(right, corrupt), A, B],
+                     [_dec_step(right, badmagic), A, _dec_step(right, badmagic)], [_dec_step(right, short), A, _dec_step(right, short), B]]
+            out += fixed if rep < 2 else fixed[:3]
+            for _ in range(6 if thorough else 2):
+                n = rng.randrange(2, 7)
+                steps = [rng.choice(pool) for _ in range(n)]
+                steps.insert(rng.randrange(0, n), A)
+                steps.insert(rng.randrange(1, n + 2), B)
+                out.append(steps[:8])
+    # ---- A': 1024 then 2048 then 1024 again, blobs presented to the key of the other size
+    if any(k == "k1024a" for k, _ in keys_right):
+        for rep in range(6 if thorough else 2):
+            f = _valid_fields(rng, rng.choice([0, 9, 58]))
+            b1 = direct_encrypt("k1024a", own_encode(f), rng)
+            b2 = direct_encrypt("k2048a", own_encode(f), rng)
+            out.append([_dec_step("k1024a", b1), _dec_step("k2048a", b2), _dec_step("k1024a", b2), _dec_step("k2048a", b1),
+                        _dec_step("k1024a", b1), _dec_step("k2048b", b2)])
+            out.append([f"rt k1024a 128 {fmt_fields(f)}", f"rt k2048a 256 {fmt_fields(f)}", f"enc k1024a 128 {fmt_fields(f)}",
+                        f"enc k2048a 256 {fmt_fields(f)}", f"rt k1024a 128 {fmt_fields(f)}"])
+    # ---- B: ONE metadata object encrypted repeatedly, mutated in between (size must be recomputed every time)
+    for right, _wrong in keys_right:
+        kb = ksize[right]
+        limit = kb - 11 - HEADER
+        other_key, okb = ("k2048a", 256) if kb == 128 else ("k1024a", 128)
+        for start in ([limit - 1, limit, limit + 1, 0, 3] if thorough else [limit - 1, limit, limit + 1, 0]):
+            f = rfields(rng, start)
+            i_lim, i_over, i_under = C.rbytes(rng, limit), C.rbytes(rng, limit + 1), C.rbytes(rng, limit - 1)
+            out.append([f"new {fmt_fields(f)}", f"eo {right} {kb}", f"eo {right} {kb}", "show", f"set info {C.hx(i_lim)}", f"eo {right} {kb}",
+                        f"set info {C.hx(i_over)}", f"eo {right} {kb}"])
+            out.append([f"new {fmt_fields(f)}", f"set info {C.hx(i_over)}", f"ro {right} {kb}", "show", f"set info {C.hx(i_lim)}", f"ro {right} {kb}",
+                        f"set info {C.hx(i_under)}", f"ro {right} {kb}"])
+            out.append([f"new {fmt_fields(f)}", f"ro {right} {kb}", f"ro {other_key} {okb}", f"set info {C.hx(C.rbytes(rng, 2))}", f"eo {other_key} {okb}",
+                        f"eo {right} {kb}", "show"])
+        for rep in range(20 if thorough else 4):
+            f = rfields(rng, rng.choice([0, 4, limit, limit + 1, rng.randrange(0, limit + 1)]))
+            steps = [f"new {fmt_fields(f)}"]
+            for _ in range(rng.randrange(2, 8)):
+                r = rng.random()
+                if r < 0.25:
+                    steps.append(f"eo {right} {kb}")
+                elif r < 0.45:
+                    steps.append(f"ro {right} {kb}")
+                elif r < 0.5:
+                    steps.append(f"ro {other_key} {okb}")
+                elif r < 0.7:
+                    steps.append(f"set info {C.hx(C.rbytes(rng, rng.choice([0, 1, limit - 1, limit, limit + 1, rng.randrange(0, limit + 3)])))}")
+                    steps.append(rng.choice([f"eo {right} {kb}", f"ro {right} {kb}"]))
+                elif r < 0.85:
+                    n, w = rng.choice(INT_FIELDS)
+                    v = rng.choice([0, 1, 256 ** w - 1, 256 ** w, rng.randrange(256 ** w)])
+                    if n == "magic" and rng.random() < 0.5:
+                        v = MAGIC
+                    steps.append(f"set {n} {v}")
+                    steps.append(rng.choice([f"eo {right} {kb}", f"ro {right} {kb}", "show"]))
+                elif r < 0.92:
+                    steps.append(f"set aes_rand {C.hx(C.rbytes(rng, rng.choice([16, 16, 15, 17, 0])))}")
+                else:
+                    steps.append("show")
+            out.append(steps[:9])
+    # ---- C: key derivation repeated with different (and confusable) seeds
+    if any(k == "k1024a" for k, _ in keys_right):
+        for i in range(0, len(TRICKY_SEEDS) - 1):
+            a, b = TRICKY_SEEDS[i], TRICKY_SEEDS[i + 1]
+            out.append([_derive_step(a), _derive_step(b), _derive_step(a), _derive_step(b, bytes(16)), _derive_step(a, b"\x01" * 16)])
+    for rep in range(40 if thorough else 8):
+        seeds = [rng.choice(TRICKY_SEEDS + [C.rbytes(rng, 16), C.rbytes(rng, 16), bytes(rng.choice(b"0123456789abcdefABCDEF \t\n") for _ in range(16))])
+                 for _ in range(rng.randrange(2, 7))]
+        if rng.random() < 0.5:
+            seeds.append(seeds[0])
+        out.append([_derive_step(s_, rng.choice([None, None, C.rbytes(rng, 16), b"abcdefghijklmnop"])) for s_ in seeds])
+    return out
+
 
 # --------------------------------------------------------------------------------------------
 # implementation adapter
@@ -478,7 +613,79 @@ def _check_k(kid, ktok):
         raise RuntimeError(f"line says k={ktok} but key {kid} has {key(kid).size_in_bytes()} bytes")
 
 
+def _exc_name(e: BaseException) -> str:
+    """Same mapping as check.canon_exc (used for the steps of a history, which are caught here)."""
+    for cls, name in ((EOFError, "EOFError"), (IndexError, "IndexError"), (KeyError, "KeyError"), (OverflowError, "OverflowError"),
+                      (ValueError, "ValueError"), (OSError, "OSError"), (AttributeError, "AttributeError"), (TypeError, "TypeError"),
+                      (AssertionError, "AssertionError"), (RecursionError, "RecursionError"), (MemoryError, "MemoryError")):
+        if isinstance(e, cls):
+            return name
+    return type(e).__name__
+
+
+def _encrypt(m, kid, padseed):
+    """The library's encrypt_metadata with reproducible PKCS#1 padding bytes."""
+    det = random.Random("C06-pad-" + padseed)
+    saved = _CryptoRandom.get_random_bytes
+    _CryptoRandom.get_random_bytes = lambda n: bytes(det.getrandbits(8) for _ in range(n))
+    try:
+        return c2.encrypt_metadata(m, key(kid).publickey())
+    finally:
+        _CryptoRandom.get_random_bytes = saved
+
+
+def _enc_answer(m, kid, padseed):
+    blob = _encrypt(m, kid, padseed)
+    pt = PKCS1_v1_5.new(key(kid)).decrypt(blob, None)
+    if pt is None:
+        return "ok-but-undecryptable"
+    return f"ok {len(blob)} {int(m.size)} {C.hx(pt)}"
+
+
+def _rt_answer(m, kid, padseed):
+    return "ok " + show_struct(c2.decrypt_metadata(_encrypt(m, kid, padseed), key(kid)))
+
+
+def split_steps(line):
+    w = line.split()
+    assert w[0] == "hist"
+    steps, cur = [], []
+    for t in w[1:]:
+        if t == "|":
+            steps.append(cur)
+            cur = []
+        else:
+            cur.append(t)
+    steps.append(cur)
+    return steps
+
+
 def impl(stream, line):
+    if stream == "hist":
+        # all steps in this one invocation: same process, same module state, same caller-side object
+        obj = None
+        answers = []
+        for i, w in enumerate(split_steps(line)):
+            try:
+                if w[0] == "new":
+                    obj = mk(parse_fields(w[1:]))
+                    a = "ok"
+                elif w[0] == "set":
+                    setattr(obj, w[1], C.unhx(w[2]) if w[1] in ("aes_rand", "info") else int(w[2]))
+                    a = "ok"
+                elif w[0] == "show":
+                    a = "ok " + show_struct(obj)
+                elif w[0] in ("eo", "ro"):
+                    _check_k(w[1], w[2])
+                    a = (_enc_answer if w[0] == "eo" else _rt_answer)(obj, w[1], f"{line}#{i}")
+                else:
+                    a = impl(w[0], " ".join(w))
+            except RuntimeError:
+                raise
+            except Exception as e:  # noqa: BLE001 - the outcome of a step is part of the observable
+                a = "exc " + _exc_name(e)
+            answers.append(a)
+        return " | ".join(answers)
     w = line.split()
     if stream == "dumps":
         m = mk(parse_fields(w[1:]))
@@ -489,21 +696,8 @@ def impl(stream, line):
     if stream in ("enc", "rt"):
         kid = w[1]
         _check_k(kid, w[2])
-        k = key(kid)
         m = mk(parse_fields(w[3:]))
-        det = random.Random("C06-pad-" + line)
-        saved = _CryptoRandom.get_random_bytes
-        _CryptoRandom.get_random_bytes = lambda n: bytes(det.getrandbits(8) for _ in range(n))
-        try:
-            blob = c2.encrypt_metadata(m, k.publickey())
-        finally:
-            _CryptoRandom.get_random_bytes = saved
-        if stream == "enc":
-            pt = PKCS1_v1_5.new(k).decrypt(blob, None)
-            if pt is None:
-                return "ok-but-undecryptable"
-            return f"ok {len(blob)} {int(m.size)} {C.hx(pt)}"
-        return "ok " + show_struct(c2.decrypt_metadata(blob, k))
+        return (_enc_answer if stream == "enc" else _rt_answer)(m, kid, line)
     if stream == "dec":
         return "ok " + show_struct(c2.decrypt_metadata(C.unhx(w[2]), key(w[1])))
     if stream == "derive":
@@ -525,49 +719,75 @@ def impl(stream, line):
 # oracle: the property stated on the implementation's output with the independent codec
 # --------------------------------------------------------------------------------------------
 
-def oracle(stream, line, out):
-    w = line.split()
-    if stream == "dumps":
+def expected(w):
+    """The stateless single-call answer the property demands, from the independent codec (op = w[0])."""
+    op = w[0]
+    if op == "dumps":
         f = parse_fields(w[1:])
         if not in_range(f):
-            return out == "exc error"
+            return "exc error"
         d = own_encode(f)
-        return out == f"ok {len(d)} {C.hx(d)}"
-    if stream == "parse":
+        return f"ok {len(d)} {C.hx(d)}"
+    if op == "parse":
         f = own_decode(C.unhx(w[1]))
-        return out == ("exc EOFError" if f is None else "ok " + fmt_fields(f))
-    if stream in ("enc", "rt"):
-        kb = int(w[2])
-        f = parse_fields(w[3:])
-        if not in_range(f):
-            return out == "exc error"
-        n = len(own_encode(f))
-        f2 = dict(f, size=n - 8)
-        if not in_range(f2):
-            return out == "exc error"
-        pt = own_encode(f2)
-        if len(pt) > kb - 11:
-            return out == "exc ValueError"
-        if stream == "enc":
-            return out == f"ok {kb} {n - 8} {C.hx(pt)}"
-        exp = expect_decrypt(pt)
-        if len(f["aes_rand"]) == 16 and f["magic"] == MAGIC:
-            # the statement of the property itself: field for field, size made consistent
-            if exp != "ok " + fmt_fields(dict(f, size=51 + len(f["info"]))):
-                return False
-        return out == exp
-    if stream == "dec":
+        return "exc EOFError" if f is None else "ok " + fmt_fields(f)
+    if op in ("enc", "rt"):
+        return _expected_encrypt(op, int(w[2]), parse_fields(w[3:]))[0]
+    if op == "dec":
         prim = w[3]
         if prim in ("V", "none"):
-            return out == "exc ValueError"
-        return out == expect_decrypt(C.unhx(prim))
-    if stream == "derive":
+            return "exc ValueError"
+        return expect_decrypt(C.unhx(prim))
+    if op == "derive":
         r = C.unhx(w[1])
         d = hashlib.sha256(r).digest()
         iv = b"abcdefghijklmnop" if w[2] == "none" else C.unhx(w[2])
-        exp = " ".join(C.hx(x) for x in (d[:16], d[16:], d[:16], d[16:], iv, d[:16], d[16:], iv))
-        return out == exp and len(d[:16]) == 16 and len(d[16:]) == 16
-    return None
+        assert len(d[:16]) == 16 and len(d[16:]) == 16
+        return " ".join(C.hx(x) for x in (d[:16], d[16:], d[:16], d[16:], iv, d[:16], d[16:], iv))
+    raise RuntimeError("unknown op " + op)
+
+
+def _expected_encrypt(op, kb, f):
+    """(expected answer, fields of the caller's object afterwards)"""
+    if not in_range(f):
+        return "exc error", f                       # len(metadata) raised: size untouched
+    n = len(own_encode(f))
+    f2 = dict(f, size=n - 8)                        # metadata.size = len(metadata) - 8
+    if not in_range(f2):
+        return "exc error", f2
+    pt = own_encode(f2)
+    if len(pt) > kb - 11:
+        return "exc ValueError", f2
+    if op == "enc":
+        return f"ok {kb} {n - 8} {C.hx(pt)}", f2
+    exp = expect_decrypt(pt)
+    if len(f["aes_rand"]) == 16 and f["magic"] == MAGIC:
+        # the statement of the property itself: field for field, size made consistent
+        assert exp == "ok " + fmt_fields(dict(f, size=51 + len(f["info"]))), "oracle self-check"
+    return exp, f2
+
+
+def oracle(stream, line, out):
+    if stream == "hist":
+        obj = None
+        exp = []
+        for w in split_steps(line):
+            if w[0] == "new":
+                obj = parse_fields(w[1:])
+                exp.append("ok")
+            elif w[0] == "set":
+                obj = dict(obj)
+                obj[w[1]] = C.unhx(w[2]) if w[1] in ("aes_rand", "info") else int(w[2])
+                exp.append("ok")
+            elif w[0] == "show":
+                exp.append("ok " + fmt_fields(obj))
+            elif w[0] in ("eo", "ro"):
+                a, obj = _expected_encrypt("enc" if w[0] == "eo" else "rt", int(w[2]), obj)
+                exp.append(a)
+            else:
+                exp.append(expected(w))
+        return out == " | ".join(exp)
+    return out == expected(line.split())
 
 
 def nontrivial(stream, line, out):
@@ -581,6 +801,8 @@ def nontrivial(stream, line, out):
         return w[2] != "x"
     if stream == "derive":
         return w[1] != "x"
+    if stream == "hist":
+        return len(split_steps(line)) >= 2
     return True
 
 
@@ -606,3 +828,5 @@ def shrink(stream, line):
             t = cand.split(" ")
             r = C.unhx(t[1])
             yield f"derive {t[1]} {t[2]} {C.hx(hashlib.sha256(r).digest())}"
+    # `hist` lines are not shrunk: a history exists to expose state kept between calls, and the shrinker re-executes
+    # candidates in one long-lived process where such state accumulates — a shrunk history would not replay from a fresh process.
